@@ -640,6 +640,110 @@ func TestResurrect(t *testing.T) {
 	})
 }
 
+// ------------------------------------------------------------------ leg 4: the old handle is a DIRECTORY handle
+
+// DirResCase: a directory f is opened, then removed / renamed away, then the name is left free or taken by a regular file
+// or by a new directory; the calls a directory handle has (chmod, sync, stat, readdir, close) then go through the old
+// handle. The removed directory does not come back: the name stays free, or stays what it was made into.
+type DirResCase struct {
+	Kind     string   `json:"kind"`
+	Unlink   string   `json:"unlink"`   // remove, rename, removeall
+	Recreate string   `json:"recreate"` // "", file, dir
+	After    []string `json:"after"`
+}
+
+func checkDirResurrect(c DirResCase) (string, string) {
+	b := build(c.Kind)
+	defer b.close()
+	base := fmt.Sprintf("C17/%s resurrect-dir[%s,%s]", c.Kind, c.Unlink, c.Recreate)
+	must(hackpadfs.Mkdir(b.fs, "dd", 0o755))
+	if c.Unlink == "removeall" {
+		must(hackpadfs.WriteFullFile(b.fs, "dd/x", []byte("x"), 0o644))
+	}
+	fh, err := b.fs.Open("dd")
+	if err != nil {
+		return base + ":open", err.Error()
+	}
+	defer func() { _ = fh.Close() }()
+	switch c.Unlink {
+	case "remove":
+		err = hackpadfs.Remove(b.fs, "dd")
+	case "removeall":
+		err = hackpadfs.RemoveAll(b.fs, "dd")
+	default:
+		err = hackpadfs.Rename(b.fs, "dd", "g")
+	}
+	if err == nil {
+		switch c.Recreate {
+		case "file":
+			err = hackpadfs.WriteFullFile(b.fs, "dd", []byte("new contents"), 0o644)
+		case "dir":
+			if err = hackpadfs.Mkdir(b.fs, "dd", 0o700); err == nil {
+				err = hackpadfs.WriteFullFile(b.fs, "dd/y", []byte("y"), 0o644)
+			}
+		}
+	}
+	if err != nil {
+		if errors.Is(err, hackpadfs.ErrNotImplemented) {
+			return "", ""
+		}
+		return base + ":setup-step-failed", err.Error()
+	}
+	for _, m := range c.After {
+		pan, hung := vf.Guard(func() { _, _ = call(fh, m) })
+		if pan != "" || hung {
+			return base + ":crash:" + m, fmt.Sprintf("%s through the old directory handle: %s hung=%v", m, pan, hung)
+		}
+		fi, serr := hackpadfs.Stat(b.fs, "dd")
+		switch c.Recreate {
+		case "":
+			if serr == nil || !errors.Is(serr, hackpadfs.ErrNotExist) {
+				return base + ":resurrected:" + m, fmt.Sprintf("after %s(\"dd\") and %s through a directory handle opened earlier, Stat(\"dd\") = %v (want not-exist)", c.Unlink, m, serr)
+			}
+		case "file":
+			data, rerr := hackpadfs.ReadFile(b.fs, "dd")
+			if serr != nil || fi.IsDir() || rerr != nil || string(data) != "new contents" {
+				return base + ":new-file-clobbered:" + m, fmt.Sprintf("after %s(\"dd\"), creating a regular file \"dd\", and %s through the directory handle opened earlier: Stat = %v (dir=%v), contents %q %v -- the removed directory took the name back", c.Unlink, m, serr, serr == nil && fi.IsDir(), data, rerr)
+			}
+		case "dir":
+			des, lerr := hackpadfs.ReadDir(b.fs, "dd")
+			if serr != nil || !fi.IsDir() || lerr != nil || len(des) != 1 || des[0].Name() != "y" {
+				return base + ":new-dir-clobbered:" + m, fmt.Sprintf("after %s(\"dd\"), creating a new directory \"dd\" holding y, and %s through the old handle: Stat = %v, listing %v %v", c.Unlink, m, serr, des, lerr)
+			}
+		}
+	}
+	return "", ""
+}
+
+func TestResurrectDir(t *testing.T) {
+	vf.Check(t, "resurrectdir", func(rt *rapid.T, rec *vf.Rec) {
+		c := DirResCase{Kind: rapid.SampledFrom([]string{"mem", "kvplain", "mount", "submem", "osfs"}).Draw(rt, "kind")}
+		c.Unlink = rapid.SampledFrom([]string{"remove", "rename", "removeall"}).Draw(rt, "unlink")
+		c.Recreate = rapid.SampledFrom([]string{"", "file", "file", "dir"}).Draw(rt, "recreate")
+		c.After = rapid.SliceOfN(rapid.SampledFrom([]string{"chmod", "chmod", "sync", "stat", "readdir", "readdir:all", "close"}), 1, 4).Draw(rt, "after")
+		rec.Step(c)
+		rec.NonTrivial()
+		if sig, msg := checkDirResurrect(c); sig != "" {
+			rec.Failf(rt, sig, "%s", msg)
+		}
+	})
+}
+
+func TestReplayResurrectDir(t *testing.T) {
+	vf.Replay(t, "resurrectdir", func(steps []json.RawMessage) (string, string) {
+		for _, raw := range steps {
+			var c DirResCase
+			if err := json.Unmarshal(raw, &c); err != nil {
+				return "bad-replay", err.Error()
+			}
+			if sig, msg := checkDirResurrect(c); sig != "" {
+				return sig, msg
+			}
+		}
+		return "", ""
+	})
+}
+
 // ------------------------------------------------------------------ replay
 
 func TestReplayAll(t *testing.T) {
